@@ -207,6 +207,14 @@ BROKEN = {
     "commentonly": {"a.go": "package a\n\nfunc F(xs []int) bool { return len(xs) >= 0 }\n", "c.go": "// only a comment\n\n/* and a block */\n"},
     "onlyempty": {"empty.go": ""},
     "clauseonly_bad": {"a.go": "package\n"},
+    # imports the type checker rejects: there is no package-name object for them
+    "initimport": {"a.go": "package a\n\nimport init \"fmt\"\n\nfunc F() { init.Println() }\n\nfunc G(xs []int) bool { return len(xs) >= 0 }\n"},
+    "badpath": {"a.go": "package a\n\nimport \"foo bar\"\n\nfunc G(xs []int) bool { return len(xs) >= 0 }\n"},
+    "emptypath": {"a.go": "package a\n\nimport \"\"\n\nfunc G(xs []int) bool { return len(xs) >= 0 }\n"},
+    "escpath": {"a.go": "package a\n\nimport x \"\\qfmt\"\n\nfunc F() { x.Println() }\n\nfunc G(xs []int) bool { return len(xs) >= 0 }\n"},
+    "redeclared": {"a.go": "package a\n\nimport (\n\tfmt \"os\"\n\tfmt \"fmt\"\n)\n\nfunc F() { fmt.Println() }\n\nfunc G(xs []int) bool { return len(xs) >= 0 }\n"},
+    "selfimport": {"a.go": "package selfimport\n\nimport me \"example.com/broken/selfimport\"\n\nfunc F() { me.F() }\n\nfunc G(xs []int) bool { return len(xs) >= 0 }\n"},
+    "dotnowhere": {"a.go": "package a\n\nimport . \"example.com/nowhere/dot\"\n\nfunc F() { Undefined() }\n\nfunc G(xs []int) bool { return len(xs) >= 0 }\n"},
     "undefined": {"a.go": "package a\n\nfunc F() { var x T; x.m(); y := undefinedFn(x); _ = y }\n\nfunc H(s string) bool { return len(s) == 0 }\n",
                   "b.go": ILL_TYPED},
 }
